@@ -259,6 +259,24 @@ fn case(t: &mut Tape, info: &mut CaseInfo) -> Result<(), String> {
         }
         info.comparisons += 2;
     }
+    // a refused mode switch leaves the map path untouched: an osu! map flagged as a convert cannot be converted,
+    // so the calculator that was asked to switch must give the result of the one that was not
+    if c.map.mode == GameMode::Osu {
+        let mut flagged = c.map.clone();
+        flagged.is_convert = true;
+        let p = Performance::new(&flagged).difficulty(c.d.clone());
+        let plain = score.apply(p.clone()).calculate();
+        for other in [GameMode::Taiko, GameMode::Catch, GameMode::Mania] {
+            let asked = score.apply(p.clone().mode_or_ignore(other)).calculate();
+            same(&format!("map path after a refused mode_or_ignore({other:?}) vs map path"), &asked, &plain)?;
+            if let Err(back) = p.clone().try_mode(other) {
+                same(&format!("map path after a refused try_mode({other:?}) vs map path"), &score.apply(back).calculate(), &plain)?;
+            } else {
+                return Err("try_mode converted a map flagged as a convert".into());
+            }
+            info.comparisons += 2;
+        }
+    }
     // mode-specific try_new on a foreign mode must refuse
     if let DifficultyAttributes::Taiko(_) = &a {
         if rosu_pp::osu::OsuPerformance::try_new(a.clone()).is_some() {
